@@ -13,7 +13,7 @@ RULE = ("cases = a fixed corpus, then (a) straight-line programs over 2-5 regist
         "the product, unit/inv/divides) and MultiDeg cases; (c) HPoly cases. Sizes are bounded by generator-side "
         "shadows (<= 64 terms, machine integers never overflow). A case is non-trivial when it is a program whose "
         "output contains at least one non-zero polynomial with >= 2 terms or a cancellation to 0 after a non-zero "
-        "value, or a monomial/MultiDeg/HPoly case with a non-unit operand; distinct = distinct case lines")
+        "value, or a monomial/MultiDeg/HPoly case with a non-unit operand; distinct = distinct case lines; program op `powz d a n` calls Pow<i32>, Pow<i64>, Pow<isize> with a signed exponent (negative exponents go through inv().unwrap(); a panic prints P and leaves the register unchanged)")
 ASSUME = ["coefficient rings are those of C14 (i64/BigInt/Ratio/FF<3>/GaussInt arithmetic is taken as exact ring "
           "arithmetic; the model uses Z, reduced fractions, residues mod 3 and pairs; i64 overflow is avoided by the "
           "generator, not modelled)",
@@ -57,10 +57,10 @@ def equal(case, impl, model):
 
 def run(ctx):
     ctx.equal = equal
-    obl = C.coq_obligations(ctx.pid, ["Extract/ExtractC16.vo"])
+    obl = C.coq_obligations(ctx.pid, ["Extract/ExtractC16.vo"], more_props=["C16Rest"])
     extra = {}
     if ctx.thorough:
-        extra.update(C.coqchk(ctx.pid))
+        extra.update(C.coqchk(ctx.pid, more_props=["C16Rest"]))
     corr = C.correspondence(ctx, "c16", nontrivial)
     return C.finish(ctx, "proof", obl, corr, RULE, extra_cov=extra, assumptions=ASSUME)
 
